@@ -588,7 +588,21 @@ theorem C20_dtype_handling (rgb : List Int) (dt : DT) (v : List Float) :
     intro y hy
     exact DT.wrap_of_mem dt (hr y hy).1 (hr y hy).2
 
+/-- **C20 (the argument decoding of `stretch` is the source's).** `stretchDecodeGen` is generated by the translator on
+every run from the `if arg0 is None: … elif arg1 is None: … else: …` chain of `stretch.py` (tests `argN is None`,
+assignments of integer literals or `arg0`/`arg1` to `min` and `max`; any other construct is a translation error), and
+`stretchDefaultDtype` from the signature's `dtype=np.uint8`. The model's `decodeArgs` — the function `stretchIntG`,
+`stretchRgbG` and `asRgbG` run — coincides with it on all arguments, and the default dtype is the `uint8` that
+`stretchU8G` (the `stretch(c)` of `as_rgb`) uses. -/
+theorem C20_stretch_decode_extracted (arg0 arg1 : Option Int) :
+    decodeArgs arg0 arg1 = stretchDecodeGen arg0 arg1 ∧ stretchDefaultDtype = "uint8" ∧
+    DT.ofName "u8" = dtU 8 := by
+  refine ⟨?_, rfl, rfl⟩
+  cases arg0 <;> cases arg1 <;> rfl
+
 /-! non-vacuity (round 4) -/
+example : stretchDecodeGen none (some 7) = (0, 255) ∧ stretchDecodeGen (some 9) none = (0, 9) ∧
+    stretchDecodeGen (some (-3)) (some 4) = (-3, 4) := by decide
 example : castOutInt (dtU 8) [] = [] ∧ (dtI 8).wrap 127 = 127 ∧ (dtI 8).wrap 199 = -57 := by decide +kernel
 example : stretchIntG (fun n : Int => (n : Rat)) truncQ (dtI 8) [3, 7, 5, 3] (some (-128)) (some (-25)) = [-128, -25, -76, -128] := by
   decide +kernel
